@@ -298,3 +298,26 @@ Definition is_direct (p : parent) : bool := match p with Direct _ => true | Loop
 
 Definition no_loopsb (g : graph) : bool :=
   match loops g with [] => forallb (fun fl => forallb is_direct (parents fl)) (flows g) | _ => false end.
+
+(* ---- well-formedness of a dumped graph with scope levels (hypothesis of the full C04 theorem) ----
+   lvs = scope nesting depth of every flow (pseudo flows builtins/globals: 0).  Checked:
+   parents and loop targets stay in the scope level, a Direct parent was created before the flow,
+   the chain of an entry flow points to outer levels, a flow with parents has a Direct parent,
+   all indices are in range. *)
+Definition lvf (lvs : list nat) (f : nat) : nat := nth f lvs 0.
+
+Definition flow_wfb (g : graph) (lvs : list nat) (f : nat) (fl : flow) : bool :=
+  forallb (fun p => match p with
+                    | Direct i => Nat.eqb (lvf lvs i) (lvf lvs f) && Nat.ltb i f
+                    | Loop l => match nth_error (loops g) l with
+                                | Some t => Nat.eqb (lvf lvs t) (lvf lvs f) && Nat.ltb t (length (flows g))
+                                | None => false
+                                end
+                    end) (parents fl) &&
+  match parents fl with
+  | [] => forallb (fun c => Nat.ltb (lvf lvs c) (lvf lvs f) && Nat.ltb c (length (flows g))) (chain fl)
+  | _ => existsb is_direct (parents fl)
+  end.
+
+Definition graph_wfb (g : graph) (lvs : list nat) : bool :=
+  forallb (fun p => flow_wfb g lvs (fst p) (snd p)) (combine (seq 0 (length (flows g))) (flows g)).
